@@ -257,9 +257,15 @@ func (t *w1Transport) WriteMany(datas ...[]byte) error {
 	if t.closed || t.failWrites {
 		return io.ErrClosedPipe
 	}
-	for i := 0; t.stalled && !t.closed && i < 300; i++ {
-		// a peer that stopped reading: the write does not complete
-		t.w.s.Sleep(100 * time.Millisecond)
+	if t.stalled && !t.closed {
+		// a peer that stopped reading: the write does not complete until the
+		// transport's write timeout (1 s here) fails it
+		for i := 0; t.stalled && !t.closed && i < 10; i++ {
+			t.w.s.Sleep(100 * time.Millisecond)
+		}
+		if t.stalled {
+			return errors.New("sim write timeout")
+		}
 	}
 	if t.closed {
 		return io.ErrClosedPipe
